@@ -153,7 +153,8 @@ pub fn step(which: Loop) {
     s[which as usize] += 1;
     STEPS.with(|c| c.set(s));
     let budget = BUDGET.with(|b| b.get()[which as usize]);
-    if s[which as usize] > budget {
+    // never from a destructor that runs while a panic (possibly this very one) is already unwinding: that would abort
+    if s[which as usize] > budget && !std::thread::panicking() {
         panic!(
             "verif-budget-exceeded site={} steps={} budget={}",
             LOOP_NAMES[which as usize], s[which as usize], budget
